@@ -276,6 +276,7 @@ type vWorld struct {
 	// histories: a round after the first one on the same handler (op `again`: the handler
 	// configuration cimd/pre/dcr/init is the one of the case's `auth` record)
 	again     bool
+	dup       []string // names of the challenge parameters that were given a decoy duplicate (tags only)
 	begin     bool // op `begin`: as `again`, but the call is left in flight (finished by a later `end <k>`)
 	round     int  // 0-based number of the attempt in its case (start order)
 	asChanged bool // this round asks another authorization server for metadata than the last round that got that far
@@ -348,7 +349,15 @@ func (w *vWorld) encodeMap(name string, m map[string]vResp) string {
 	return strings.Join(parts, ";")
 }
 
+// encode: the op of the world; `dup=` (names of challenge parameters with a decoy duplicate) is for the tags only.
 func (w *vWorld) encode() string {
+	if len(w.dup) == 0 {
+		return w.encode0()
+	}
+	return w.encode0() + " dup=" + strings.Join(w.dup, ",")
+}
+
+func (w *vWorld) encode0() string {
 	pre := "none"
 	if w.pre != nil {
 		pre = w.pre.tok()
@@ -492,6 +501,9 @@ func decodeWorld(op string) (*vWorld, error) {
 	w.status, _ = strconv.Atoi(kv["st"])
 	w.cimd, w.dcr, w.init, w.hm = kv["cimd"] == "1", kv["dcr"] == "1", kv["init"] == "1", kv["hm"] == "1"
 	w.nts, w.ntFail = kv["nts"] == "1", kv["nt"] == "E"
+	if d := kv["dup"]; d != "" {
+		w.dup = strings.Split(d, ",")
+	}
 	w.sf, w.rr = kv["sf"], kv["rr"] == "1"
 	if w.sf == "" {
 		w.sf = "n"
@@ -1995,6 +2007,32 @@ func (g *vGen) renderHeader() {
 			ps = append(ps, sc)
 		}
 		g.rng.Shuffle(len(ps), func(a, b int) { ps[a], ps[b] = ps[b], ps[a] })
+		// duplicate parameters: the LAST one of a name counts (`params[strings.ToLower(key)] = value`). A decoy of the
+		// same name (any case) is put somewhere BEFORE the parameter the structure of the case stands for: a foreign /
+		// unsafe / script resource_metadata URL (one with a quoted comma), another error code, another scope.
+		if g.p(25) {
+			for _, d := range [][2]string{
+				{"resource_metadata=", []string{`resource_metadata="http://evil.example/decoy"`, `RESOURCE_METADATA="javascript:alert(1)"`,
+					`resource_metadata="https://evil.example:8443/decoy, \"x\""`, `Resource_metadata=https://evil.example:8443/decoy`}[g.rng.Intn(4)]},
+				{"error=", []string{`error="invalid_token"`, `ERROR=insufficient_scope`, `Error="a, b"`}[g.rng.Intn(3)]},
+				{"scope=", []string{`scope="admin offline_access"`, `SCOPE=admin`}[g.rng.Intn(2)]},
+			} {
+				if !g.p(50) {
+					continue
+				}
+				for i, x := range ps {
+					if strings.HasPrefix(strings.ToLower(x), d[0]) {
+						j := g.rng.Intn(i + 1)
+						ps = append(ps[:j], append([]string{d[1]}, ps[j:]...)...)
+						w.dup = append(w.dup, strings.TrimSuffix(d[0], "="))
+						break
+					}
+				}
+			}
+		}
+		if g.p(10) {
+			ps = append(ps, `realm2="a \"quoted\", part"`)
+		}
 		sep := []string{", ", ",", " , "}[g.rng.Intn(3)]
 		if len(ps) == 0 {
 			parts = append(parts, name)
@@ -2293,6 +2331,9 @@ func flowTags(w *vWorld, obs string) []string {
 	tags = append(tags, "mode="+mode, fmt.Sprintf("st=%d", w.status))
 	if strings.Contains(obs, "inst=1") {
 		tags = append(tags, "installed")
+	}
+	for _, d := range w.dup {
+		tags = append(tags, "duplicate-param:"+d)
 	}
 	if w.hm {
 		tags = append(tags, "malformed-header")
